@@ -16,7 +16,7 @@ def c20_join_noncomposite_rows_placed_by_label(w):
     if w['what'] != 'join_rows_mismatch' or not _noncomposite(w):
         return False
     k = w['klass']
-    if k.get('hierarchical_index') or k.get('datetime_index_meets_other_kind'):
+    if k.get('hierarchical_index') or k.get('union_coerces_labels'):
         return False
     how = k.get('how')
     differ = not k.get('matched_pairs_share_labels')
@@ -32,16 +32,22 @@ def c20_join_noncomposite_rows_placed_by_label(w):
 
 @predicate
 def c20_join_noncomposite_hierarchical_index(w):
-    """composite_index=False with a hierarchical index on either frame."""
-    return w['what'] in ('join_rows_mismatch', 'join_raised') and _noncomposite(w) and bool(w['klass'].get('hierarchical_index'))
+    """composite_index=False where exactly one frame has a hierarchical index, or both have one
+    with a datetime64 level (flattening the labels to tuples turns datetime64 into date objects)."""
+    k = w['klass']
+    if w['what'] not in ('join_rows_mismatch', 'join_raised') or not _noncomposite(w):
+        return False
+    sides = k.get('hierarchical_sides')
+    return sides == 1 or (sides == 2 and bool(k.get('hierarchy_has_datetime_level')))
 
 
 @predicate
-def c20_join_noncomposite_datetime_index_vs_other(w):
-    """composite_index=False where exactly one frame has a datetime index class."""
+def c20_join_noncomposite_index_kinds_coerced(w):
+    """composite_index=False where the union of the two indexes re-types labels (datetime index vs another
+    kind, float vs int labels)."""
     k = w['klass']
     return (w['what'] in ('join_rows_mismatch', 'join_raised') and _noncomposite(w) and not k.get('hierarchical_index')
-            and bool(k.get('datetime_index_meets_other_kind')))
+            and bool(k.get('union_coerces_labels')))
 
 
 @predicate
